@@ -408,6 +408,54 @@ func c06Doc(r *engine.Run, doc string, accept bool, want *refcodec.Node, note st
 			r.Violation("C06/doc.decodedValue:"+note, "doc", c, d)
 		}
 	}
+	// the other entry points are the same decoder plus a type check: Geometry.UnmarshalJSON agrees
+	// with UnmarshalGeoJSON, and a concrete destination accepts exactly the accepted documents of
+	// its own type, with the same value
+	var viaMethod geom.Geometry
+	merr := viaMethod.UnmarshalJSON([]byte(doc))
+	if (merr == nil) != accept {
+		r.Violation("C06/doc.Geometry.UnmarshalJSON.verdictDiffers:"+note, "doc", c, fmt.Sprint(merr))
+	} else if accept {
+		if d := refcodec.Diff(refcodec.Describe(g), refcodec.Describe(viaMethod)); d != "" {
+			r.Violation("C06/doc.Geometry.UnmarshalJSON.valueDiffers:"+note, "doc", c, d)
+		}
+	}
+	dsts := []unmarshaler{new(geom.GeometryCollection), new(geom.Point), new(geom.LineString), new(geom.Polygon), new(geom.MultiPoint), new(geom.MultiLineString), new(geom.MultiPolygon)}
+	for i, dst := range dsts {
+		var derr error
+		if p := engine.SafeCall(func() { derr = dst.UnmarshalJSON([]byte(doc)) }); p != nil {
+			r.Violation("C06/doc.concrete.panic", "doc", c, fmt.Sprintf("%T: %v", dst, p))
+			continue
+		}
+		wantOK := accept && g.Type() == geom.GeometryType(i)
+		if (derr == nil) != wantOK {
+			r.Violation("C06/doc.concrete.verdict:"+note, "doc", c, fmt.Sprintf("%T: %v (UnmarshalGeoJSON: %v)", dst, derr, err))
+		} else if wantOK {
+			if d := refcodec.Diff(refcodec.Describe(g), refcodec.Describe(asGeomJSON(dst))); d != "" {
+				r.Violation("C06/doc.concrete.value:"+note, "doc", c, fmt.Sprintf("%T: %s", dst, d))
+			}
+		}
+	}
+}
+
+func asGeomJSON(u unmarshaler) geom.Geometry {
+	switch v := u.(type) {
+	case *geom.GeometryCollection:
+		return v.AsGeometry()
+	case *geom.Point:
+		return v.AsGeometry()
+	case *geom.LineString:
+		return v.AsGeometry()
+	case *geom.Polygon:
+		return v.AsGeometry()
+	case *geom.MultiPoint:
+		return v.AsGeometry()
+	case *geom.MultiLineString:
+		return v.AsGeometry()
+	case *geom.MultiPolygon:
+		return v.AsGeometry()
+	}
+	return geom.Geometry{}
 }
 
 func c06Documents(r *engine.Run) {
@@ -502,6 +550,25 @@ func c06Documents(r *engine.Run) {
 		} {
 			c06Doc(r, d.doc, false, nil, d.note)
 			n++
+		}
+		// well-formed documents whose geometry is invalid: refused by every entry point
+		if t.typ == "Point" {
+			for _, d := range []string{
+				`{"type":"LineString","coordinates":[[1,2]]}`,
+				`{"type":"LineString","coordinates":[[1,2],[1,2]]}`,
+				`{"type":"Polygon","coordinates":[[[0,0],[3,0],[0,3]]]}`,
+				`{"type":"Polygon","coordinates":[[[0,0],[3,0],[0,3],[1,1]]]}`,
+				`{"type":"Polygon","coordinates":[[[0,0],[3,3],[3,0],[0,3],[0,0]]]}`,
+				`{"type":"Polygon","coordinates":[[[0,0],[3,0],[0,3],[0,0]],[[5,5],[6,5],[5,6],[5,5]]]}`,
+				`{"type":"MultiLineString","coordinates":[[[0,0],[1,1]],[[2,2]]]}`,
+				`{"type":"MultiPolygon","coordinates":[[[[0,0],[3,0],[0,3],[0,0]]],[[[0,0],[2,0],[0,2],[0,0]]]]}`,
+				`{"type":"MultiPolygon","coordinates":[[[[0,0],[3,0],[0,3]]]]}`,
+				`{"type":"GeometryCollection","geometries":[{"type":"Point","coordinates":[1,2]},{"type":"LineString","coordinates":[[1,2]]}]}`,
+				`{"type":"GeometryCollection","geometries":[{"type":"GeometryCollection","geometries":[{"type":"Polygon","coordinates":[[[0,0],[3,0],[0,3]]]}]}]}`,
+			} {
+				c06Doc(r, d, false, nil, "invalid-geometry")
+				n++
+			}
 		}
 		// a concrete destination of another type must reject a well-formed document
 		doc := fmt.Sprintf(`{"type":%q,"coordinates":%s}`, t.typ, co)
